@@ -300,9 +300,12 @@ func (x *Engine) verifyFunc(fs *FuncSpec, cs *Clause, prop string, mode string) 
 	// the contract carries invariants for loop ordinals: if the function no longer has that many loops (a loop was
 	// extracted into a helper, merged, unrolled by hand), the invariants are bound to the wrong loops or to none — the
 	// contract has to be brought up to date, and until then failures of this function are undecided, not violations
+	// (only when the missing loop turns up, un-annotated, in a callee that is inlined — see the end of this function: a
+	// change that simply DROPS a loop is a change of behaviour and is decided as usual)
+	x.loopMismatch, x.inlinedLoop = nil, ""
 	for k := range fs.Loops {
 		if n, err := strconv.Atoi(k); err == nil && n > len(fr.loops) {
-			x.degrade(fmt.Sprintf("the contract of %s has invariants for loop %d, the function has %d loop(s): loop structure changed since the contract was written", shortKey(fs.Key), n, len(fr.loops)))
+			x.loopMismatch = append(x.loopMismatch, fmt.Sprintf("the contract of %s has invariants for loop %d, the function has %d loop(s)", shortKey(fs.Key), n, len(fr.loops)))
 		}
 	}
 	fr.track = fs.Panics == "never" || fs.Panics == "callees"
@@ -548,6 +551,9 @@ func (x *Engine) verifyFunc(fs *FuncSpec, cs *Clause, prop string, mode string) 
 		}
 	}
 	rep.Obls = x.obls
+	if len(x.loopMismatch) > 0 && x.inlinedLoop != "" {
+		x.degrade(strings.Join(x.loopMismatch, "; ") + ", and " + x.inlinedLoop + " (inlined, no contract) has a loop without invariant: a loop was moved into a helper since the contract was written")
+	}
 	rep.Degraded = x.degraded
 	rep.Abstracted = x.abstr
 	for k := range x.inlined {
